@@ -6,6 +6,7 @@ reference flattener verif/oracles/c06_dsl_flatten.py.  The two results are compa
 DSLInvalidError (or the schema's pydantic.ValidationError) whose errors all carry a location.
 """
 import copy
+import gc
 import json
 import re
 import signal
@@ -359,6 +360,10 @@ _BASES = {}
 def _bases(thorough):
     if thorough not in _BASES:
         _BASES[thorough] = list(G.base_items(thorough))
+        # keep the (large, immutable) list out of the cyclic garbage collector: a full collection that has to traverse
+        # it costs more CPU than a compilation and would eat into the non-termination budget
+        gc.collect()
+        gc.freeze()
     return _BASES[thorough]
 
 
